@@ -59,7 +59,7 @@ var c12Classes = []string{"command", "label", "key", "envname", "envval", "plugi
 	"unkkey", "unkval", "matrixval", "adjwith", "sigvalue"}
 
 // c12Doc builds the step document from class -> string assignments.
-func c12Doc(assign map[string]string, p map[string]string, rng *rand.Rand, zerodim int) (string, bool) {
+func c12Doc(assign map[string]string, p map[string]string, rng *rand.Rand, zerodim int, alias bool) (string, bool) {
 	S := func(class string) string {
 		if s, ok := assign[class]; ok {
 			return s
@@ -104,6 +104,23 @@ func c12Doc(assign map[string]string, p map[string]string, rng *rand.Rand, zerod
 		step = append(step, [2]any{"matrix", []any{nil, orderedJSON{}, orderedJSON{{"setup", orderedJSON{}}}, orderedJSON{{"setup", orderedJSON{}}, {"adjustments", []any{}}}}[zerodim]})
 	}
 	rng.Shuffle(len(step), func(i, j int) { step[i], step[j] = step[j], step[i] })
+	if alias {
+		// YAML: the unknown field's value carries an anchor and is written twice more through aliases (once directly,
+		// once inside a list), behind everything else: three occurrences of the same text, each expanded once
+		step = append(step, [2]any{S("unkkey") + "_again", "\x00ALIAS"}, [2]any{S("unkkey") + "_third", []any{"\x00ALIAS", "\x00ALIAS"}})
+		var sub string
+		for _, kv := range step {
+			if kv[0] == S("unkkey") {
+				sub = string(asciiJSON(kv[1]))
+			}
+		}
+		full := string(asciiJSON(obj{"steps": []any{orderedJSON(step)}}))
+		if strings.Count(full, sub) != 1 {
+			fatal("c12Doc: the unknown field's text is not unique in the document")
+		}
+		full = strings.Replace(full, sub, "&r "+sub, 1)
+		return strings.ReplaceAll(full, `"\u0000ALIAS"`, "*r "), hasMatrix
+	}
 	return string(asciiJSON(obj{"steps": []any{orderedJSON(step)}})), hasMatrix
 }
 
@@ -119,6 +136,10 @@ func c12Event(c obj) obj {
 		strs = append(strs, []any{sp, toks})
 		if cl == "unkkey" { // the nested second key
 			strs = append(strs, []any{sp + "2", append(append([]any{}, toks...), obj{"t": "lit", "s": "2"})})
+			if c["alias"] == true {
+				strs = append(strs, []any{sp + "_again", append(append([]any{}, toks...), obj{"t": "lit", "s": "_again"})})
+				strs = append(strs, []any{sp + "_third", append(append([]any{}, toks...), obj{"t": "lit", "s": "_third"})})
+			}
 		}
 	}
 	p := map[string]string{}
@@ -134,7 +155,7 @@ func c12Event(c obj) obj {
 		z64, _ := z.Int64()
 		zerodim = int(z64)
 	}
-	src, _ := c12Doc(assign, p, newRand(rot, "c12doc"), zerodim)
+	src, _ := c12Doc(assign, p, newRand(rot, "c12doc"), zerodim, c["alias"] == true)
 	ev := obj{"c": c, "p": c["p"], "strings": strs}
 	pn, msg := guarded(func() {
 		pl, err := pipeline.Parse(strings.NewReader(src))
@@ -207,7 +228,7 @@ func runC12(args []string) {
 				toks := append([]any{obj{"t": "lit", "s": "./p-"}}, c["toks"].([]any)...)
 				toks = append(toks, obj{"t": "lit", "s": "#" + cl})
 				sp := "./p-" + c["spelled"].(string) + "#" + cl
-				c = normalize(obj{"assign": obj{cl: obj{"toks": toks, "spelled": sp}}, "p": c["p"], "rot": n})
+				c = normalize(obj{"assign": obj{cl: obj{"toks": toks, "spelled": sp}}, "p": c["p"], "rot": n, "alias": n%3 == 1})
 			}
 			add(c12Event(c))
 		})
@@ -283,7 +304,7 @@ func c12RandomCase(rng *rand.Rand) obj {
 			assign[cl] = mk(cl)
 		}
 	}
-	out := obj{"assign": assign, "p": p}
+	out := obj{"assign": assign, "p": p, "alias": rng.Intn(3) == 0}
 	if len(dims) == 0 {
 		out["zerodim"] = rng.Intn(4) // 0: no matrix at all; 1-3: a matrix without dimensions
 	}
